@@ -180,8 +180,9 @@ class BoundTemplate:
                     # has been hit. In lax mode, templates that include
                     # themselves more than once would otherwise keep recursing
                     # from every level. The root template handles the error
-                    # according to the current mode.
-                    if partial:
+                    # according to the current mode. (A base template rendered
+                    # by the `extends` tag is not the root template either.)
+                    if partial or context.template is not self:
                         raise
                     self.env.error(err, token=node.token)
                 except LiquidError as err:
@@ -191,7 +192,9 @@ class BoundTemplate:
                     # Like `Environment.from_string`, don't let unexpected
                     # exceptions from tags, filters or drops reach the caller.
                     error = _unexpected_render_error(err, node.token)
-                    if partial and isinstance(error, ContextDepthError):
+                    if (partial or context.template is not self) and isinstance(
+                        error, ContextDepthError
+                    ):
                         raise error from err
                     self.env.error(error)
 
@@ -228,7 +231,7 @@ class BoundTemplate:
                     break
                 except ContextDepthError as err:
                     # See `render_with_context`.
-                    if partial:
+                    if partial or context.template is not self:
                         raise
                     self.env.error(err, token=node.token)
                 except LiquidError as err:
@@ -238,7 +241,9 @@ class BoundTemplate:
                     # Like `Environment.from_string`, don't let unexpected
                     # exceptions from tags, filters or drops reach the caller.
                     error = _unexpected_render_error(err, node.token)
-                    if partial and isinstance(error, ContextDepthError):
+                    if (partial or context.template is not self) and isinstance(
+                        error, ContextDepthError
+                    ):
                         raise error from err
                     self.env.error(error)
 
